@@ -80,6 +80,20 @@ def _scalar_layout(d, sig, blocks, lead):
 
 
 def _wrapper_case(case):
+    """The same signature is pushed through the conventional re-layout in the drawn dimension and then in the other one
+    (when the signature exists there): anything memoised per layout but depending on D shows up in the second pass."""
+    d0 = case["d"]
+    kmax = max(t[0][0] for t in case["sig"] + case.get("out_sig", []))
+    dims = [d0] + ([5 - d0] if (kmax <= 1 or 5 - d0 == 2) else [])
+    res = None
+    for d in dims:
+        res = _wrapper_one(dict(case, d=d))
+        if res["violation"] is not None:
+            return res
+    return res
+
+
+def _wrapper_one(case):
     d, N = case["d"], case["N"]
     sig = gen.sig_tuple(case["sig"])
     lead = 1 if case["batch"] else 0
@@ -104,8 +118,9 @@ def _wrapper_case(case):
         inner = _Perm(tuple(range(n_scalar)), 0)
         exp_scal = scal
     elif case["kind"] == "permutation":
-        inner = _Perm(tuple(case["perm"]), 0)
-        exp_scal = np.take(scal, case["perm"], axis=lead)
+        perm = case["perm"] if len(case["perm"]) == n_scalar else list(range(n_scalar))[::-1]  # second dimension: reversal
+        inner = _Perm(tuple(perm), 0)
+        exp_scal = np.take(scal, perm, axis=lead)
     else:
         out_sig = gen.sig_tuple(case["out_sig"])
         n_out = sum(c * d ** t[0] for t, c in out_sig)
@@ -170,9 +185,10 @@ def run_case(cfg):
             return result(viol(f"C20/type-order/{name}", f"{cfg['cls']} ({'equivariant' if eqv else 'conventional'}), {name} model: output types in order {[t for t, _ in got]}, requested order {[t for t, _ in expected]}"), nontrivial, key, labels)
         if out.D != d or tuple(out.is_torus) != tor:
             return result(viol(f"C20/{cfg['cls']}/metadata", f"{name}: D={out.D} is_torus={out.is_torus} expected {tor}"), nontrivial, key, labels)
-        if expected and tuple(out.get_spatial_dims()) != (cfg["N"],) * d:
-            return result(viol(f"C20/{cfg['cls']}/spatial", f"{name}: spatial dims {out.get_spatial_dims()} input {(cfg['N'],) * d}"), nontrivial, key, labels)
+        shp = netgen.model_shape(cfg)
+        if expected and tuple(out.get_spatial_dims()) != shp:
+            return result(viol(f"C20/{cfg['cls']}/spatial", f"{name}: spatial dims {out.get_spatial_dims()} input {shp}"), nontrivial, key, labels)
         for (t, c) in expected:
-            if np.asarray(out[t]).shape != (c,) + (cfg["N"],) * d + (d,) * t[0]:
+            if np.asarray(out[t]).shape != (c,) + shp + (d,) * t[0]:
                 return result(viol(f"C20/{cfg['cls']}/block-shape", f"{name}: block {t} shape {np.asarray(out[t]).shape}"), nontrivial, key, labels)
     return result(None, nontrivial, key, labels, evals=2)
